@@ -52,6 +52,44 @@ def default_results(repo: Repo) -> dict[str, list[str]]:
     return res
 
 
+def _flows_to_sink(fn: ast.AST, stmt: ast.AST | None) -> str | None:
+    """The statement holding a __default__() call stores it in a local (assignment, or append/extend/insert on a local list); follow the local,
+    flow-insensitively, through further assignments to a co_consts / argdefs / kwdefaults keyword or a class-dict store."""
+    tainted: set[str] = set()
+
+    def seed(st: ast.AST | None) -> None:
+        if isinstance(st, (ast.Assign, ast.AugAssign, ast.AnnAssign)):
+            for t in (st.targets if isinstance(st, ast.Assign) else [st.target]):
+                for x in ast.walk(t):
+                    if isinstance(x, ast.Name):
+                        tainted.add(x.id)
+        elif isinstance(st, ast.Expr) and isinstance(st.value, ast.Call) and isinstance(st.value.func, ast.Attribute) and \
+                st.value.func.attr in ("append", "extend", "insert", "update", "setdefault") and isinstance(st.value.func.value, ast.Name):
+            tainted.add(st.value.func.value.id)
+
+    seed(stmt)
+    if not tainted:
+        return None
+    changed = True
+    while changed:
+        changed = False
+        for st in walk_body(fn.body):
+            if isinstance(st, (ast.Assign, ast.AugAssign, ast.AnnAssign, ast.Expr)):
+                val = st.value if not isinstance(st, ast.Expr) else (st.value.args if isinstance(st.value, ast.Call) else None)
+                vals = val if isinstance(val, list) else [val]
+                if any(isinstance(x, ast.Name) and x.id in tainted for v in vals if v is not None for x in ast.walk(v)):
+                    before = len(tainted)
+                    seed(st)
+                    changed |= len(tainted) != before
+    for x in walk_body(fn.body):
+        if isinstance(x, ast.keyword) and x.arg in ("co_consts", "argdefs", "kwdefaults") and any(isinstance(y, ast.Name) and y.id in tainted for y in ast.walk(x.value)):
+            return x.arg
+        if isinstance(x, ast.Assign) and any(isinstance(t, ast.Subscript) and "classdict" in norm(t.value) for t in x.targets) and \
+                any(isinstance(y, ast.Name) and y.id in tainted for y in ast.walk(x.value)):
+            return "classdict"
+    return None
+
+
 def defaults_rule(repo: Repo, rep: Report, rid: str) -> None:
     rep.rule(rid, "defaults are per instance: a value produced by X.__default__() at definition time may be embedded in a per-class constant "
                   "(co_consts / argdefs / class dict) only if every family's default is immutable")
@@ -75,6 +113,8 @@ def defaults_rule(repo: Repo, rep: Report, rid: str) -> None:
                 p = pm.get(p)
             if sink is None and isinstance(p, ast.Assign) and any(isinstance(t, ast.Subscript) and "classdict" in norm(t.value) for t in p.targets):
                 sink = "classdict"
+            if sink is None:
+                sink = _flows_to_sink(fi.node, p)
             if sink is None:
                 continue
             n += 1
@@ -119,7 +159,10 @@ def replicate_rule(repo: Repo, rep: Report, rid: str) -> None:
     rep.ok(rid, "fixture:[cls.type.__default__()] * n", "matcher recognises the positive fixture", "", nontrivial=False)
     d = repo.func("types/base.py", "BaseArray.__default__")
     comp = [x for x in walk_body(d.node.body) if isinstance(x, (ast.ListComp, ast.GeneratorExp)) and any(isinstance(c, ast.Call) and call_name(c) == "__default__" for c in ast.walk(x.elt))]
-    rep.check(bool(comp), rid, f"{d.key}:per-element", "every element gets its own default (comprehension calls __default__ per element)",
+    # the explicit-loop form: the element default is created inside the loop body, once per iteration
+    comp += [x for x in walk_body(d.node.body) if isinstance(x, (ast.For, ast.While))
+             and any(isinstance(c, ast.Call) and call_name(c) == "__default__" for st in x.body for c in ast.walk(st))]
+    rep.check(bool(comp), rid, f"{d.key}:per-element", "every element gets its own default (__default__ is called once per element, in a comprehension or loop body)",
               "BaseArray.__default__ does not create one default per element", d.loc())
 
 
